@@ -749,6 +749,14 @@ def _replace_case(arg):
         compile_ok = ast.dump(ast.parse(ast.unparse(ast.fix_missing_locations(copy.deepcopy(expected))))) == exp_dump
     except Exception:
         compile_ok = False          # the requested result is not valid Python at all (e.g. starred in a wrong place)
+    if not compile_ok:
+        # ast.unparse itself loses some groupings (a Tuple as the sole item of a with statement): a tree the COMPILER accepts
+        # is a valid request as well
+        try:
+            compile(ast.fix_missing_locations(copy.deepcopy(expected)), '<c09>', 'exec', dont_inherit=True)
+            compile_ok = True
+        except Exception:
+            pass
     root = FST(psrc, 'exec')
     tgt = _nav(root.a, path).f
     try:
